@@ -110,6 +110,29 @@ fn main() {
                 }
             }
         }
+        "list" => {
+            // the property table: sub-checks and budgets (pasted into DESIGN.md)
+            say("| property | sub-check | kind | quick | thorough |");
+            say("|---|---|---|---|---|");
+            for id in props::ALL {
+                let spec = props::spec(id).unwrap();
+                for sub in &spec.subs {
+                    match &sub.kind {
+                        mtv::runner::SubKind::Gen { cases, max_bytes, .. } => say(&format!(
+                            "| {} | {} | generated (proptest, <= {} choice bytes) | {} cases | {} cases |",
+                            id, sub.name, max_bytes, cases.0, cases.1
+                        )),
+                        mtv::runner::SubKind::Exh { shards, .. } => say(&format!(
+                            "| {} | {} | exhaustive enumeration | {} shards | {} shards |",
+                            id, sub.name, shards.0, shards.1
+                        )),
+                    }
+                }
+                let plans: Vec<String> = mtv::fuzzdrv::plan_for(id).iter().map(|p| format!("{} {}x{} runs", p.target, p.jobs, p.runs_per_job)).collect();
+                say(&format!("| {} | libFuzzer | coverage-guided | - | {} |", id, plans.join(", ")));
+            }
+            std::process::exit(0);
+        }
         "selftest" => {
             let st = mtv::selftest::run();
             for l in &st {
